@@ -129,6 +129,19 @@ def has_greedy(a):
     return any(ge(e) for _, al in a["rules"] for es, _ in al for e in es)
 
 
+def has_assoc_meta(a):
+    """an explicit associativity or priority on some alternative (group alternatives included)"""
+    def gm(alts):
+        for es, m in alts:
+            if m[0] != 0 or m[1] != 10:
+                return True
+            for e in es:
+                if e[0] == "grp" and gm(e[1]):
+                    return True
+        return False
+    return any(gm(al) for _, al in a["rules"])
+
+
 def count_ops(a):
     c = {"opt": 0, "star": 0, "plus": 0, "sep": 0, "greedy": 0, "group": 0, "nested_group": 0}
 
@@ -995,6 +1008,12 @@ def run(ctx):
                 # ----- greedy grammars
                 if kind != "glr":
                     # LR with greedy marks: whatever it returns must be a result of the expansion
+                    continue
+                if has_assoc_meta(a):
+                    # explicit {left}/{right}/priority marks prune table actions even under GLR, and do so
+                    # differently in the differently shaped tables of the greedy grammar, its '!'-free form
+                    # and the expansion: language differences cannot be attributed to the greedy mark
+                    st["greedy_skipped_explicit_assoc"] = st.get("greedy_skipped_explicit_assoc", 0) + 1
                     continue
                 st["greedy_language_checked"] += 1
                 ng = x.get("ng")
